@@ -95,7 +95,8 @@ pub fn gen_rows(rng: &mut Rng, n: usize, nl: usize, nr: usize, tag: &str, pool: 
 pub fn gen_bigram(rng: &mut Rng, nr: usize, nl: usize, dual: bool, k_choice: Option<usize>) -> Conn {
     // number of templates: includes < 8, = 8, 9, 16, 19
     let k = k_choice.unwrap_or_else(|| *rng.pick(&[1usize, 2, 3, 5, 7, 8, 9, 10, 12, 15, 16, 17, 19, 20]));
-    let vocab = ["p", "q", "名", "x y", "q,1", "R\"q", "", "長い特徴", "B3:名詞"];
+    // (features are compared verbatim: blanks at their edges, a lone blank and U+3000 are ordinary text)
+    let vocab = ["p", "q", "名", "x y", "q,1", "R\"q", "", "長い特徴", "B3:名詞", " p", "q ", "\u{3000}", " "];
     let mk = |rng: &mut Rng, n: usize| -> Vec<Vec<String>> {
         (0..n)
             .map(|_| {
@@ -300,6 +301,11 @@ pub fn gen_dict(rng: &mut Rng, cfg: &GenCfg) -> DictSpec {
         for _ in 0..n {
             unk.push(UnkRow { cat: i, l: rng.below(nl) as u16, r: rng.below(nr) as u16, cost: gen_cost(rng, cfg.tie_heavy), feat: gen_feature(rng, "U", unk.len()) });
         }
+    }
+    if rng.chance(0.05) && !unk.is_empty() {
+        // the same unk.def row twice (two candidates, like two identical lex.csv rows)
+        let again = unk[rng.below(unk.len())].clone();
+        unk.push(again);
     }
     if rng.chance(0.3) {
         rng.shuffle(&mut unk);
